@@ -185,6 +185,20 @@ type c13Prog struct {
 	text string // may differ from p.Main for near-copies
 }
 
+// c13Memory: results remembered across the cases of one worker process (see c13Run).
+type c13Remembered struct {
+	p       c13Prog
+	variant int
+	res     c13Result
+	at      int
+}
+
+var (
+	c13Memory     []c13Remembered
+	c13Execs      int
+	execsThisCase int
+)
+
 type c13Result struct {
 	out string
 	err string
@@ -343,6 +357,48 @@ func c13Run(t *rapid.T) {
 		}
 	}
 
+	// ---- the same (template, data) rendered alone must give what it gave the FIRST time this process rendered
+	// it, whatever the process did in between: state that lives outside templates and contexts (package-level
+	// memo tables, interning, pools, counters) converges after first use, so comparing within one history cannot
+	// see it — the reference of this history would already be computed on the converged state. Some results are
+	// remembered across cases and re-checked in later cases, after thousands of unrelated renders.
+	if len(c13Memory) > 0 && uni(t, "revisit", 3) == 0 {
+		for n := 1 + uni(t, "nrevisit", 3); n > 0; n-- {
+			m := c13Memory[uni(t, "revisitwhich", len(c13Memory))]
+			rt := newRuntime(m.p.p, true)
+			rt.Variant = m.variant
+			tm, err := simNewTemplate(m.p.text)
+			var out string
+			if err == nil {
+				out, err = safeExec(tm, plush.NewContextWith(rt.contextData()))
+			}
+			got := result(out, err, rt)
+			count("c13_revisits", 1)
+			if got != m.res {
+				mm := m
+				violate(t, "C13", "same-template-same-data-same-result-whenever-rendered", "c13:result-depends-on-process-history", func() map[string]interface{} {
+					return map[string]interface{}{"program": mm.p.text, "partials": mm.p.p.Partials, "js": mm.p.p.JS, "data_variant": mm.variant,
+						"first_result_in_this_process": mm.res.String(), "result_now": got.String(), "renders_in_between": c13Execs - mm.at,
+						"message": "rendered alone (fresh parse, fresh context, cache off, canonical map order) twice in one process, with unrelated renders in between: the results differ; replay needs the whole worker run (the state that changed was left by earlier cases)"}
+				})
+				return
+			}
+		}
+	}
+	for i := range progs {
+		if uni(t, "remember", 4) == 0 {
+			j := uni(t, "remembervariant", nvar)
+			e := c13Remembered{p: progs[i], variant: j, res: ref[i][j], at: c13Execs}
+			if len(c13Memory) < 400 {
+				c13Memory = append(c13Memory, e)
+			} else {
+				c13Memory[uni(t, "rememberslot", len(c13Memory))] = e
+			}
+		}
+	}
+	defer func() { c13Execs += 1 + execsThisCase }()
+	execsThisCase = 0
+
 	var hist []string
 	var live []*liveTmpl
 	cacheOn := false
@@ -393,6 +449,7 @@ func c13Run(t *rapid.T) {
 
 	compare := func(i, j int, how string, out string, err error, rt *Runtime) {
 		execs++
+		execsThisCase++
 		progsUsed[i] = true
 		count("c13_executions", 1)
 		got := result(out, err, rt)
@@ -576,6 +633,8 @@ func c13Run(t *rapid.T) {
 			o2, e2, r2 := run()
 			a, b := result(o1, e1, r1), result(o2, e2, r2)
 			execs++
+			execsThisCase++
+			execsThisCase++
 			count("c13_executions", 2)
 			count("c13_op_page_layout", 1)
 			if a != b {
@@ -606,6 +665,8 @@ func c13Run(t *rapid.T) {
 			o2, e2, r2 := run()
 			a, b := result(o1, e1, r1), result(o2, e2, r2)
 			execs++
+			execsThisCase++
+			execsThisCase++
 			count("c13_executions", 2)
 			count("c13_op_same_context_twice", 1)
 			if a != b {
